@@ -223,7 +223,7 @@ class Query:
             return None
 
         if projection == Projection.RELATIVE:
-            obj: Dict[Union[int, str], Any] = {}
+            obj: Dict[Union[int, str], Any] = _ProjectionNode()
             for expr in expressions:
                 path = self._env.compile(expr) if isinstance(expr, str) else expr
                 for rel_match in path.finditer(match.obj):  # type: ignore
@@ -240,13 +240,21 @@ class Query:
             return arr
 
         # Project from the root document
-        obj = {}
+        obj = _ProjectionNode()
         for expr in expressions:
             path = self._env.compile(expr) if isinstance(expr, str) else expr
             for rel_match in path.finditer(match.obj):  # type: ignore
                 _patch_obj(match.parts + rel_match.parts, obj, rel_match.obj)
 
         return _fix_sparse_arrays(obj)
+
+
+class _ProjectionNode(Dict[Union[int, str], Any]):
+    """An object or (sparse) array under construction by `_patch_obj`.
+
+    A distinct type, so values selected from the target document - which might
+    be dictionaries too - are never mistaken for part of the projection tree.
+    """
 
 
 def _patch_obj(
@@ -264,8 +272,12 @@ def _patch_obj(
     # We'll fix these "sparse arrays" after the patch has been applied.
     for part in parts[:-1]:
         if part not in _obj:
-            _obj[part] = {}  # type: ignore
+            _obj[part] = _ProjectionNode()  # type: ignore
         _obj = _obj[part]
+        if not isinstance(_obj, _ProjectionNode):
+            # An ancestor of this node has been selected in its entirety. It
+            # is a value from the target document and must not be modified.
+            return
 
     _obj[parts[-1]] = value  # type: ignore
 
@@ -275,12 +287,15 @@ def _fix_sparse_arrays(obj: Any) -> object:
     if isinstance(obj, str) or not obj:
         return obj
 
+    if isinstance(obj, _ProjectionNode):
+        if isinstance(next(iter(obj)), int):
+            return [_fix_sparse_arrays(v) for v in obj.values()]
+        return {k: _fix_sparse_arrays(v) for k, v in obj.items()}
+
     if isinstance(obj, Sequence):
         return [_fix_sparse_arrays(e) for e in obj]
 
     if isinstance(obj, Mapping):
-        if isinstance(next(iter(obj)), int):
-            return [_fix_sparse_arrays(v) for v in obj.values()]
         return {k: _fix_sparse_arrays(v) for k, v in obj.items()}
 
     return obj
